@@ -842,6 +842,30 @@ def np_isclose(eng, st, args, kw, node):
     return elementwise2(eng, st, close, args[0], args[1], esort=BOOL)
 
 
+def np_intersect1d(eng, st, args, kw, node):
+    """np.intersect1d(a, b) for two results of np.where over the same index range: the positions where both conditions hold, ascending
+    (the sorted, duplicate-free common elements).  Other operands are outside the subset."""
+    if kw or len(args) != 2 or not all(isinstance(a, Ref) for a in args):
+        raise OutOfSubset('np.intersect1d form')
+    ma, mb = st.heap[args[0].oid].meta or {}, st.heap[args[1].oid].meta or {}
+    ca, cb = ma.get('where_cond1'), mb.get('where_cond1')
+    if ca is None or cb is None:
+        raise OutOfSubset('np.intersect1d of arrays that are not results of np.where')
+    na, nb = to_z3(ma['where_n'], INT), to_z3(mb['where_n'], INT)
+    k = fresh('k_isect', INT)
+    it = fresh('isect', A1I)
+    e, f, x = z3.Ints('e!is f!is x!is')
+    ie = z3.Select(it, e)
+    both = lambda q: z3.And(q >= 0, q < na, q < nb, truth(ca(q)), truth(cb(q)))
+    st.pc.append(k >= 0)
+    st.pc.append(z3.ForAll([e], z3.Implies(z3.And(e >= 0, e < k), both(ie)), patterns=[z3.Select(it, e)]))
+    st.pc.append(z3.ForAll([e, f], z3.Implies(z3.And(e >= 0, e < f, f < k), ie < z3.Select(it, f))))
+    widx = z3.Function('isidx!%d' % next(core._fresh), INT, INT)
+    st.pc.append(z3.ForAll([x], z3.Implies(both(x), z3.And(widx(x) >= 0, widx(x) < k, z3.Select(it, widx(x)) == x)), patterns=[widx(x)]))
+    nmin = z3.If(na <= nb, na, nb)
+    return alloc(st, 1, it, (k,), INT, {'where_idx': widx, 'where_cond1': (lambda q, ca=ca, cb=cb: z3.And(truth(ca(q)), truth(cb(q)))), 'where_n': nmin})
+
+
 def np_repeat(eng, st, args, kw, node):
     """np.repeat(M, k, axis) for a 2-D M whose extent along `axis` is 1: k copies of that single column (axis=1) / row (axis=0)."""
     if kw or len(args) != 3 or ndim_of(eng, st, args[0]) != 2 or not isinstance(args[2], int):
